@@ -12,7 +12,7 @@ THEOREMS = ["Drand.Daemon." + t for t in [
     "c14_total_peer", "c14_total_control_wire", "c14_panic_sites", "c14_panic_keeps_state", "c14_wire_panics_peer_only",
     "c14_phase_moves_legal", "c14_still_serves", "c14_still_serves_histories", "c14_still_serves_partial",
     "c14_still_serves_counterexample", "c14_wedge_only_by_overflow",
-    "c14_beacon_total", "c14_beacon_wire_no_panic", "c14_beacon_never_blocks"]]
+    "c14_beacon_total", "c14_beacon_wire_no_panic", "c14_beacon_never_blocks", "c14_http_total"]]
 TRUSTED = [
     "Lean 4 kernel; axioms per theorem under coverage.axioms",
     "go2lean lock-fact walker (syntactic: Lock/RLock/Unlock/defer per method, receiver-internal same-goroutine calls; dies on unbalanced shapes), nil-dereference extractor (direct field chains vs getters, earlier `== nil` return guards), listener facts (interceptor chains, registered services) — regenerated every run, tied by tie_* / used by the theorems",
@@ -20,7 +20,7 @@ TRUSTED = [
     "oracle labels of the model: 'this proposal/execute packet is the leader's valid signed one', 'this DKG bundle carries a valid participant signature' (set by construction in the generator, never from the implementation's answer)",
     "modelled, not verified: sync.Mutex/RWMutex semantics, Go channel semantics, grpc-go (delivery, go-grpc-middleware recovery turning a handler panic into codes.Internal), net/http per-connection recover, kyber, bbolt",
     "harness engine 'dispatch': real dkg.Process (real bolt dkg store, stub BeaconIdentifier, in-memory DKGClient), real beacon.Handler over a real trimmed bolt store, core.DrandDaemon/BeaconProcess assembled by export shims (the real constructors need a key store, config folder and ports), served by the production net.NewGRPCPrivateGateway on loopback",
-    "not exercised: the HTTP server (handler/http), the control listener as a network endpoint (its handlers are called in-process), a daemon started from disk with the repo's test scaffolding, TLS, metrics endpoints, concurrent request interleavings (requests are sequential)"]
+    "not exercised: the control listener as a network endpoint (its handlers are called in-process), a daemon started from disk with the repo's test scaffolding, TLS, metrics endpoints, concurrent request interleavings (requests are sequential)"]
 ASSUMPTIONS = ["single initial-epoch DKG world (three joiners, no remaining/leaving nodes); one beacon id ('default')",
                "requests are processed one at a time (no concurrent handlers); cross-type lock ordering is not analysed"]
 
@@ -45,6 +45,8 @@ ROUNDS = ["zero", "one", "past", "last", "next", "beyond", "max"]
 PSIGS = ["empty", "b1", "b2", "valid", "own", "outidx", "hugeidx", "badsig", "trunc", "big"]
 PREVS = ["right", "empty", "junk", "big"]
 CONNS = ["none", "self", "empty", "nilelem", "closed3"]
+HPREFIXES = ["none", "known", "unknown", "malformed", "odd", "huge"]
+HROUNDS = ["zero", "one", "last", "beyond", "far", "max", "overflow", "neg", "alpha"]
 
 SIG_ECHO = "dispatch:echo-application-channel-full:blocking-send-under-locks"
 SIG_STATUS = "dispatch:protocol-status:serial-dials-under-state-rlock"
@@ -53,6 +55,8 @@ SIG_STATUS = "dispatch:protocol-status:serial-dials-under-state-rlock"
 def is_wire(op):
     """could this request have been produced by unmarshalling bytes (python-side, independent of the model)"""
     f = op.split()
+    if f[0] == "http":
+        return True
     if f[0] in ("packet", "bcast", "status", "partial", "sync", "pubrand", "pubstream", "chaininfo", "identity", "pstatus"):
         if f[2] == "nil":
             return False
@@ -223,6 +227,11 @@ def beacon_lattice(rng, tier, phase):
                 ops.append(f"sync {l} some {m} {r}")
                 if m == "nil" or r == "one":
                     ops.append(f"pubstream {l} some {m} {r}")
+    # the public HTTP API
+    for pre in HPREFIXES:
+        for ep in ["latest", "info", "health"] + ["round:" + r for r in HROUNDS]:
+            ops.append(f"http {pre} {ep}")
+    ops += ["http none chains", "http known chains"]
     return [f"bphase {phase}"] + rng.shuffle(ops)
 
 
@@ -248,7 +257,7 @@ def oracle(seq, outs):
         if o.startswith("bad-op"):
             return i, f"harness rejected the op: {out}"
         if o.startswith("panic:"):
-            if f[1] == "grpc":
+            if f[1] == "grpc" or f[0] == "http":
                 return i, "a panic escaped on the network path"
             if is_wire(op) and not endpoint_recovers(op):
                 return i, f"a wire-reachable request panics in {o[6:]} on an endpoint without recovery interceptor: the process would die"
@@ -353,7 +362,7 @@ def shrink(seq, idx, seed):
 def explore_tier(ctx, res, tier):
     res.cov["explanation"] = ("PARTIAL: the lock discipline and the listener facts are proved on relations regenerated from the source; the request-level theorems are about a "
                               "hand-derived model whose agreement with the real handlers is sampled on a finite request lattice (sequential requests, one DKG world); Go-level panics or blocking "
-                              "the model does not predict would only be found by that run. Two genuine defects are known findings (see known_findings.json); the HTTP server is not exercised.")
+                              "the model does not predict would only be found by that run. Two genuine defects are known findings (see known_findings.json).")
     rng = ctx["rng"]
     seed = ctx["seed"]
     seqs = []        # (tag, [lines])
@@ -449,7 +458,8 @@ def explore_tier(ctx, res, tier):
                 moved = True
             dist["ops_by_kind"][f[0]] = dist["ops_by_kind"].get(f[0], 0) + 1
             if len(f) > 1 and f[0] not in ("phase", "bphase"):
-                dist["layers"][f[1]] = dist["layers"].get(f[1], 0) + 1
+                lay = "http" if f[0] == "http" else f[1]
+                dist["layers"][lay] = dist["layers"].get(lay, 0) + 1
                 o = out.split()[0] if out.split() else "none"
                 cls = o.split(":")[0]
                 dist["outcomes"][cls] = dist["outcomes"].get(cls, 0) + 1
@@ -496,7 +506,7 @@ def explore_tier(ctx, res, tier):
                        "{nil inner, empty, junk, valid}, DKG bundles {nil, empty, no metadata, no bundle, deal/response/justification × nil/empty/junk/nil element/oversize/validly signed/duplicate}; "
                        "BroadcastDKG and DKGStatus likewise; random histories along fresh→proposed and joined→executing; beacon side per phase (running, before DKG, stopped) × layer "
                        "(Handler / beacon.SyncChain direct, BeaconProcess, DrandDaemon, gRPC): PartialBeacon round × partial signature × previous signature classes, SyncChain, PublicRand(Stream), "
-                       "ChainInfo, GetIdentity, Status × metadata {nil, id × chain hash × node version}. Every call under a 5 s watchdog with recover, followed by lock probes (TryLock) and "
+                       "ChainInfo, GetIdentity, Status × metadata {nil, id × chain hash × node version}; the public HTTP API (handler/http behind the production REST listener): chain-hash prefix {none, known, unknown, non-hex, odd length, 8 KiB} × {latest, info, health, chains, round {0, 1, last, beyond, 2^62, 2^64-1, 2^64, -1, junk}}. Every call under a 5 s watchdog with recover, followed by lock probes (TryLock) and "
                        "probe requests on the same and on other endpoints. evaluations = op lines (each 1 call + lock probes; request probes after every non-error outcome and every 4th op); non-trivial = distinct (phase, op) whose outcome is not a plain error")
     res.cov["samples"] = samples
     res.cov["distribution"] = dist
